@@ -60,7 +60,8 @@ class Gen:
         if kind == "dup":
             return {"kind": "dup"}
         if kind == "regex":
-            rx = r.choice(["contains", "prefix", "suffix", "emptyonly", "any", "alt", "icontains", "backref", "group"])
+            rx = r.choice(["contains", "prefix", "suffix", "emptyonly", "any", "alt", "icontains", "backref", "backref", "backref",
+                           "group"])
             lits = [[97], [97, 98], [65], [32], [46], [40], [0xE9], [98]]
             lit = r.choice(lits)
             if rx == "icontains":
@@ -214,6 +215,8 @@ def gen_builtin_scenario(rnd, sid):
     g.ops.append({"op": "append", "p": root, "h": a, "via": "append"})
     g.ops.append({"op": "append", "p": root, "h": b, "via": "append"})
     pool = rnd.sample(TEXTS, 4)
+    if any(o.get("op") == "new" and o["d"].get("rx") == "backref" for o in g.ops):
+        pool += [[97, 97], [120, 98, 98, 121]]      # texts the back-reference is about
     n = rnd.randint(20, 200)
     for _ in range(n):
         # runs and alternations
@@ -222,6 +225,38 @@ def gen_builtin_scenario(rnd, sid):
         else:
             g.msg(pool)
     return {"id": sid, "ops": g.ops}
+
+
+def gen_builtin_tables(first_id):
+    """C16, deterministic part: every built-in filter in a one-filter pipeline against every text of the pool and every
+    message type - every regular-expression kind with both constructors, every level threshold, the duplicate filter
+    on a fixed run pattern.  (The random scenarios find interactions; these make sure no single decision rule goes
+    unexercised, whatever the seed.)"""
+    out = []
+    sid = first_id
+
+    def scenario(desc, msgs):
+        nonlocal sid
+        ops = [{"op": "new", "id": 1, "d": {"kind": "pipe", "cls": "pipeline", "scoped": False}}, {"op": "root", "p": 1},
+               {"op": "new", "id": 2, "d": desc}, {"op": "append", "p": 1, "h": 2, "via": "append"},
+               {"op": "new", "id": 3, "d": {"kind": "probe"}}, {"op": "append", "p": 1, "h": 3, "via": "append"}]
+        ops += msgs
+        out.append({"id": sid, "ops": ops})
+        sid += 1
+
+    def msg(t, text, cat="default"):
+        return {"op": "msg", "type": t, "text": text, "cat": u(cat)}
+    all_texts = [msg("info", t) for t in TEXTS]
+    for rx in ["contains", "prefix", "suffix", "emptyonly", "any", "alt", "icontains", "backref", "group"]:
+        for ctor in ("str", "qre"):
+            for lit, lit2 in (([97], [98]), ([97, 98], [65]), ([98], [97, 98])):
+                scenario({"kind": "regex", "rx": rx, "lit": lit, "lit2": lit2, "ctor": ctor}, all_texts)
+    for mn in TYPES:
+        scenario({"kind": "level", "min": mn}, [msg(t, [97]) for t in TYPES])
+    run = [[97], [97], [98], [98], [98], [97], [], [], None, None, [97, 32], [97], [65], [97]]
+    scenario({"kind": "dup"}, [msg(TYPES[i % len(TYPES)], t) for i, t in enumerate(run)])
+    scenario({"kind": "seq", "name": "seq_number"}, [msg("debug", [97]) for _ in range(12)])
+    return out
 
 
 def classify(scn):
@@ -295,6 +330,7 @@ def run(pid, tier, seed):
             scenarios.append(gen_tree_scenario(rnd, i + 1, "C16"))
         for i in range(n_seq):
             scenarios.append(gen_builtin_scenario(rnd, n_tree + i + 1))
+        scenarios += gen_builtin_tables(n_tree + n_seq + 1)
     work = C.BUILD / "work" / pid
     runs, crash, inp = run_driver(bdir, scenarios, work, f"s{seed}")
     violations = 0
